@@ -463,6 +463,14 @@ Definition stmt_C10_all_ok : Prop :=
 Definition stmt_C10_disabled_panics : Prop :=
   forall (T : Type) c (t : list T) k x, In k (tb_disabled c) -> ~ In k (map fst (tb_slots c)) ->
   tb_index T c t k = TPanic /\ tb_set T c t k x = TPanic.
+(* totality, end to end: on the table GENERATED for an enum, every enabled variant reads a value and can be overwritten and read
+   back (never a missing arm, never a panic); every disabled variant panics.  No NoDup / membership hypothesis is left to the caller. *)
+Definition stmt_C10_total_map : Prop :=
+  forall (T : Type) it c (t : list T) i v p, gen_table it = Ok c -> well_sized c t -> variant_at it i v p ->
+  (vp_disabled p = false ->
+     (exists x, tb_index T c t i = TOk x) /\
+     (forall y, exists t', tb_set T c t i y = TOk t' /\ tb_index T c t' i = TOk y /\ well_sized c t')) /\
+  (vp_disabled p = true -> tb_index T c t i = TPanic /\ forall y, tb_set T c t i y = TPanic).
 
 (* ======================= C13 / C14 / C15 / C09 ======================= *)
 Definition stmt_C13_methods : Prop :=
